@@ -1,16 +1,21 @@
 ---- MODULE MC_FeatureChain ----
 (* Case space of C02 over the live spec-name lists (Live_FeatureChain is generated at run time by
    harness/c02.py from the working tree).  Version j carries every J spec, version i every l=0 and
-   l=1 spec with all five documented contractions (vector.vector, vector.grad n). *)
+   l=1 spec with all five documented contractions (vector.vector, vector.grad n).  rep = TRUE appends every J spec a
+   SECOND time: a feature is a (kernel spec, parameter set) pair, the harness gives the second occurrence different
+   parameters, and each occurrence must reproduce the documented integral for ITS parameters. *)
 EXTENDS FeatureChain, Live_FeatureChain
 Empty == <<>>
 Head2(s) == IF Len(s) >= 2 THEN SubSeq(s, 1, 2) ELSE s
-JS(v) == CASE v = "j" -> LiveJSeq [] v = "ij" -> Head2(LiveJSeq) [] v = "k" -> <<"se", "se">> [] OTHER -> <<>>
+JS(v, rep) == CASE v = "j" -> (IF rep THEN LiveJSeq \o LiveJSeq ELSE LiveJSeq)
+                 [] v = "ij" -> (IF rep THEN Head2(LiveJSeq) \o Head2(LiveJSeq) ELSE Head2(LiveJSeq))
+                 [] v = "k" -> <<"se", "se">> [] OTHER -> <<>>
 L0(v) == CASE v = "i" -> LiveI0Seq [] v = "ij" -> Head2(LiveI0Seq) [] OTHER -> <<>>
 L1(v) == CASE v = "i" -> LiveI1Seq [] v = "ij" -> <<LiveI1Seq[1]>> [] OTHER -> <<>>
 Dots(v) == CASE v = "i" -> <<<<0, 0>>, <<-1, 0>>, <<0, 1>>, <<-1, 1>>, <<1, 1>>>> [] v = "ij" -> <<<<0, 0>>, <<-1, 0>>>> [] OTHER -> <<>>
 CaseSpace == {[ver |-> v, level |-> lv, mult |-> mu, plan |-> p, ladder |-> la, interp |-> it, spin |-> sp,
-               jspecs |-> JS(v), l0 |-> L0(v), l1 |-> L1(v), dots |-> Dots(v)] :
+               rep |-> rp, jspecs |-> JS(v, rp), l0 |-> L0(v), l1 |-> L1(v), dots |-> Dots(v)] :
               v \in {"j", "i", "ij", "k"}, lv \in {"GGA", "MGGA"}, mu \in {"one", "expnt"}, p \in {"gaussian", "spline"},
-              la \in {"etb", "zexp"}, it \in {"onsite_direct", "onsite_spline", "train_gen"}, sp \in {"restricted", "perspin"}}
+              la \in {"etb", "zexp"}, it \in {"onsite_direct", "onsite_spline", "train_gen"}, sp \in {"restricted", "perspin"},
+              rp \in BOOLEAN}
 ====
